@@ -25,7 +25,7 @@ EXPLANATION = (
     "`*slot = malloc(..); if (!*slot)` as tested, and only reports feasible paths (branch outcomes about "
     "the sign of an unmodified local or the value of an unmodified lvalue must not contradict each "
     "other); R1.status accepts a status that is lost on a path which itself returns a failure constant. "
-    "(6) a member released on a failure path is reset before the object is used or destroyed again (R27, library-wide: free/close/fclose/munmap or a function that frees its parameter, the member given directly or through a local copy that can still be current). Decides these clauses; a NULL result that is tolerated rather than dereferenced is not decided.")
+    "(6) a member released on a failure path is reset before the object is used or destroyed again (R27, library-wide: free/close/fclose/munmap or a function that frees its parameter, the member given directly or through a local copy that can still be current). (7) R1.sticky for objects that carry their own status member (the RLE encoder): after a void helper that can record a failure there, no constant success return is reached without reading the member. Decides these clauses; a NULL result that is tolerated rather than dereferenced is not decided.")
 
 ALLOC_EXT = {"malloc", "calloc", "realloc", "strdup", "strndup", "aligned_alloc", "posix_memalign"}
 
